@@ -95,6 +95,29 @@ def run(chk):
             chk.cov["traces_validated_against_impl"] += 1
             if model_121 and len(s) > 3:
                 chk.sample(dict(table_entries=len(entries), input=s[:12], cells=mcells[:12]), cap=3)
+        # the same round trip at the API level in the other output modes (characters of the display table, Unicode braille
+        # requested with and without dotsIO, noUndefined): back(forward(s)) = s and forward(back(forward(s))) = forward(s)
+        if model_121:
+            # Unicode braille keeps dots 1-8 only: with virtual dots (9-f) in a cell the table is not one-to-one in that form
+            plain8 = all((c & 0x7f00) == 0 for c in cells)
+            for mode in ((0, 64, 64 | 128, 4 | 64, 128) if plain8 else (0, 64, 64 | 128, 128)):
+                sub = strings[:6] + strings[-1:]
+                f1 = trans.run_cases(exe, str(tf), [trans.case_line("T", mode, x, 4 * len(x) + 8, presence=12) for x in sub], exact=1, env=env, timeout=300)
+                okf = [(x, a) for x, a in zip(sub, f1) if not a.crash and a.hang is None and a.ret == 1]
+                b1 = trans.run_cases(exe, str(tf), [trans.case_line("B", mode, a.out[:a.outlen], 4 * a.outlen + 8, presence=12) for x, a in okf], exact=1, env=env, timeout=300)
+                f2 = trans.run_cases(exe, str(tf), [trans.case_line("T", mode, b.out[:max(b.outlen, 0)] or [32], 4 * len(x) + 8, presence=12) for (x, a), b in zip(okf, b1)],
+                                     exact=1, env=env, timeout=300)
+                for (x, a), b, c in zip(okf, b1, f2):
+                    chk.count((ttext, tuple(x), "mode", mode), nontrivial=len(x) > 1)
+                    chk.tally("round_trip_mode_%d" % mode)
+                    if b.crash or b.ret != 1 or b.out[:b.outlen] != x or c.crash or c.ret != 1 or c.out[:c.outlen] != a.out[:a.outlen]:
+                        chk.violation("round-trip-mode", "one-to-one table does not round-trip in mode %d: %s -> %s -> %s -> %s" % (
+                            mode, x, a.out[:a.outlen], None if b.crash else b.out[:b.outlen], None if c.crash else c.out[:c.outlen]),
+                            dict(table=ttext, input=x, mode=mode))
+                        break
+                    chk.cov["traces_validated_against_impl"] += 1
+                if len(okf) != len(sub):
+                    chk.violation("forward-failed", "forward translation failed in mode %d on a definitions-only table" % mode, dict(table=ttext, mode=mode))
         # display maps: lou_charToDots then lou_dotsToChar over the table's characters
         uniq = list(dict.fromkeys(chars))[:300]
         dl = [trans.case_line("C", 0, uniq, len(uniq))]
